@@ -390,6 +390,19 @@ func init() {
 		return r
 	})
 
+	// ----- juniper parallel.DoContext: executed as the sequential schedule i = 0..n-1 (other schedules are outside the claim) -----
+	reg("github.com/bradenaw/juniper/parallel.DoContext", func(e *Exec, c *frame, fn *ssa.Function, a []Value) Value {
+		n := int(e.concInt(a[2].(Sc), "parallel.DoContext n"))
+		e.intrHit["parallel.DoContext-sequential"]++
+		for i := 0; i < n; i++ {
+			r := e.call(c, token.NoPos, a[3], []Value{a[0], mkInt(int64(i))})
+			if it, ok := r.(Iface); ok && it.t != nil {
+				return it
+			}
+		}
+		return Iface{}
+	})
+
 	// ----- database/sql row iteration: "no rows" (statement-contract harness) -----
 	reg("(*database/sql.Rows).Next", func(e *Exec, c *frame, fn *ssa.Function, a []Value) Value { return mkBool(false) })
 	reg("(*database/sql.Rows).Close", func(e *Exec, c *frame, fn *ssa.Function, a []Value) Value { return Iface{} })
